@@ -1,14 +1,839 @@
 (* C19 — lemmas about the sync_timestamps model. *)
-From Coq Require Import ZArith QArith Qabs List Bool Lia Lra.
+From Coq Require Import ZArith QArith Qabs List Bool Lia Lqa Qfield.
 From IBL.C19 Require Import Model.
 Import ListNotations.
-Open Scope Q_scope.
 
-(* witness: two a-events within tbin of the same single b-event are both paired with it *)
-(* ticks of 10 ms: tsa = 0, 0.05, 10.3, 20.7 s; tsb = 0.02, 10.3, 20.7 s; tbin = 0.1 s *)
+(* witness: two a-events within tbin of the same single b-event are both paired with it.
+   ticks of 10 ms: tsa = 0, 0.05, 10.3, 20.7 s; tsb = 0.02, 10.3, 20.7 s; tbin = 0.1 s *)
 Definition wit_tsa : list Z := [0; 5; 1030; 2070]%Z.
 Definition wit_tsb : list Z := [2; 1030; 2070]%Z.
 
 Lemma first_pass_dup_witness :
   first_pass 10 0 wit_tsa wit_tsb = [0; 0; 1; 2]%Z.
 Proof. vm_compute. reflexivity. Qed.
+
+Open Scope Q_scope.
+
+(* ------------------------------------------------------------------------- *)
+(* Part A — degree-1 least squares                                            *)
+(* ------------------------------------------------------------------------- *)
+Fixpoint psum (l : list Q) : Q :=
+  match l with [] => 0 | x :: r => x + psum r end.
+
+Lemma qsum_psum l : qsum l == psum l.
+Proof.
+  induction l as [|x r IH]; cbn [qsum psum]; [reflexivity|].
+  rewrite Qred_correct, IH. reflexivity.
+Qed.
+
+Definition S1 (xs : list Q) := psum xs.
+Definition S2 (xs : list Q) := psum (map (fun x => x * x) xs).
+Definition NN (xs : list Q) := inject_Z (Z.of_nat (length xs)).
+Definition DD (xs : list Q) := NN xs * S2 xs - S1 xs * S1 xs.
+Definition Q1 (x : Q) (xs : list Q) := psum (map (fun y => (x - y) * (x - y)) xs).
+
+Lemma NN_cons x xs : NN (x :: xs) == NN xs + 1.
+Proof.
+  unfold NN. cbn [length]. rewrite Nat2Z.inj_succ, <- Z.add_1_r, inject_Z_plus. reflexivity.
+Qed.
+
+Lemma NN_nonneg xs : 0 <= NN xs.
+Proof. unfold NN. change 0 with (inject_Z 0). rewrite <- Zle_Qle. lia. Qed.
+
+Lemma Q1_expand x xs : Q1 x xs == NN xs * (x * x) - 2 * x * S1 xs + S2 xs.
+Proof.
+  induction xs as [|y r IH].
+  - unfold Q1, NN, S1, S2. cbn. ring.
+  - unfold Q1 in *. cbn [map psum]. rewrite IH, NN_cons. unfold S1, S2. cbn [map psum]. ring.
+Qed.
+
+Lemma DD_cons x xs : DD (x :: xs) == DD xs + Q1 x xs.
+Proof.
+  rewrite Q1_expand. unfold DD. rewrite NN_cons. unfold S1, S2. cbn [map psum]. ring.
+Qed.
+
+Lemma sq_nonneg (a : Q) : 0 <= a * a.
+Proof.
+  destruct (Qlt_le_dec a 0).
+  - setoid_replace (a * a) with ((- a) * (- a)) by ring. apply Qmult_le_0_compat; lra.
+  - apply Qmult_le_0_compat; lra.
+Qed.
+
+Lemma sq_pos (a : Q) : ~ a == 0 -> 0 < a * a.
+Proof.
+  intros Hne. destruct (Qlt_le_dec a 0).
+  - setoid_replace (a * a) with ((- a) * (- a)) by ring. apply Qmult_lt_0_compat; lra.
+  - destruct (Qlt_le_dec 0 a); [apply Qmult_lt_0_compat; lra|]. exfalso. apply Hne. lra.
+Qed.
+
+Lemma Q1_nonneg x xs : 0 <= Q1 x xs.
+Proof.
+  unfold Q1. induction xs as [|y r IH]; cbn [map psum]; [lra|].
+  pose proof (sq_nonneg (x - y)). lra.
+Qed.
+
+Lemma Q1_pos x xs : (exists y, In y xs /\ ~ y == x) -> 0 < Q1 x xs.
+Proof.
+  intros [y [Hin Hne]]. unfold Q1. induction xs as [|z r IH]; [destruct Hin|].
+  cbn [map psum]. pose proof (Q1_nonneg x r) as Hr. unfold Q1 in Hr.
+  pose proof (sq_nonneg (x - z)) as Hz.
+  destruct Hin as [->|Hin].
+  - assert (0 < (x - y) * (x - y)); [|lra].
+    apply sq_pos. intros E. apply Hne. lra.
+  - specialize (IH Hin). lra.
+Qed.
+
+Lemma DD_nonneg xs : 0 <= DD xs.
+Proof.
+  induction xs as [|x r IH].
+  - unfold DD, NN, S1, S2. cbn. lra.
+  - rewrite DD_cons. pose proof (Q1_nonneg x r). lra.
+Qed.
+
+Lemma DD_pos xs : (exists x y, In x xs /\ In y xs /\ ~ x == y) -> 0 < DD xs.
+Proof.
+  induction xs as [|z r IH]; intros [x [y [Hx [Hy Hne]]]]; [destruct Hx|].
+  rewrite DD_cons. pose proof (Q1_nonneg z r) as H1. pose proof (DD_nonneg r) as H2.
+  destruct Hx as [<-|Hx]; destruct Hy as [<-|Hy].
+  - exfalso. apply Hne. reflexivity.
+  - assert (0 < Q1 z r); [|lra]. apply Q1_pos. exists y. split; [exact Hy|].
+    intros E. apply Hne. symmetry. exact E.
+  - assert (0 < Q1 z r); [|lra]. apply Q1_pos. exists x. split; [exact Hx|exact Hne].
+  - assert (0 < DD r); [|lra]. apply IH. exists x, y. auto.
+Qed.
+
+(* the sums of an exactly affine data set *)
+Section Affine.
+Variables s c : Q.
+Definition on_line (p : Q * Q) : Prop := snd p == s * fst p + c.
+
+Lemma sy_affine pts : Forall on_line pts ->
+  psum (map snd pts) == s * S1 (map fst pts) + c * NN (map fst pts).
+Proof.
+  induction 1 as [|p r Hp Hr IH].
+  - unfold S1, NN. cbn. ring.
+  - rewrite map_cons, map_cons. rewrite NN_cons. unfold S1 in *. cbn [psum].
+    unfold on_line in Hp. rewrite IH, Hp. ring.
+Qed.
+
+Lemma sxy_affine pts : Forall on_line pts ->
+  psum (map (fun p => fst p * snd p) pts) == s * S2 (map fst pts) + c * S1 (map fst pts).
+Proof.
+  induction 1 as [|p r Hp Hr IH].
+  - unfold S1, S2. cbn. ring.
+  - unfold S1, S2 in *. cbn [map psum]. unfold on_line in Hp. rewrite IH, Hp. ring.
+Qed.
+End Affine.
+
+Lemma map_sq pts : map (fun p : Q * Q => fst p * fst p) pts = map (fun x => x * x) (map fst pts).
+Proof. rewrite map_map. reflexivity. Qed.
+
+Lemma polyfit_exact_affine pts s c :
+  Forall (on_line s c) pts ->
+  (exists p q, In p pts /\ In q pts /\ ~ fst p == fst q) ->
+  exists s' c', polyfit1 pts = Some (s', c') /\ s' == s /\ c' == c.
+Proof.
+  intros Hl Hd.
+  assert (HD : 0 < DD (map fst pts)).
+  { apply DD_pos. destruct Hd as [p [q [Hp [Hq Hne]]]].
+    exists (fst p), (fst q). repeat split; auto using in_map. }
+  assert (HN : 0 < NN (map fst pts)).
+  { destruct (Qlt_le_dec 0 (NN (map fst pts))) as [|Hle]; [assumption|].
+    exfalso. pose proof (NN_nonneg (map fst pts)).
+    assert (E : NN (map fst pts) == 0) by lra.
+    unfold DD in HD. rewrite E in HD.
+    pose proof (sq_nonneg (S1 (map fst pts))). lra. }
+  pose proof (sy_affine s c pts Hl) as Hy.
+  pose proof (sxy_affine s c pts Hl) as Hxy.
+  unfold polyfit1.
+  set (n := qlen pts).
+  assert (En : n == NN (map fst pts)).
+  { unfold n, qlen, NN. rewrite map_length. reflexivity. }
+  set (sx := qsum (map fst pts)).
+  assert (Ex : sx == S1 (map fst pts)) by (apply qsum_psum).
+  set (sy := qsum (map snd pts)).
+  assert (Ey : sy == psum (map snd pts)) by (apply qsum_psum).
+  set (sxx := qsum (map (fun p => fst p * fst p) pts)).
+  assert (Exx : sxx == S2 (map fst pts)).
+  { unfold sxx. rewrite qsum_psum, map_sq. reflexivity. }
+  set (sxy := qsum (map (fun p => fst p * snd p) pts)).
+  assert (Exy : sxy == psum (map (fun p => fst p * snd p) pts)) by (apply qsum_psum).
+  set (den := Qred (n * sxx - sx * sx)).
+  assert (Eden : den == DD (map fst pts)).
+  { unfold den. rewrite Qred_correct, En, Exx, Ex. reflexivity. }
+  destruct (Qeq_bool den 0) eqn:Eb.
+  { apply Qeq_bool_eq in Eb. rewrite Eden in Eb. lra. }
+  eexists. eexists. split; [reflexivity|].
+  assert (Es : Qred ((n * sxy - sx * sy) / den) == s).
+  { rewrite Qred_correct, Eden, En, Exy, Ey, Ex, Hxy, Hy.
+    unfold DD. field. unfold DD in HD. lra. }
+  split; [exact Es|].
+  rewrite Qred_correct, Es, Ey, Ex, En, Hy. field. lra.
+Qed.
+
+
+Definition pair_on_map (d o : Q) (p : Q * Q) : Prop := snd p == (1 + d) * fst p + o.
+
+Lemma matched_In tsb : forall tsa ib p, In p (matched tsa ib tsb) ->
+  exists m, (m < length tsa)%nat /\ (m < length ib)%nat /\ (0 <= nth m ib (-1)%Z)%Z /\
+            p = (nth m tsa 0, nth (Z.to_nat (nth m ib (-1)%Z)) tsb 0).
+Proof.
+  induction tsa as [|a ra IH]; intros ib p Hin; [destruct Hin|].
+  destruct ib as [|j rj]; [destruct Hin|]. cbn [matched] in Hin.
+  destruct (0 <=? j)%Z eqn:E.
+  - destruct Hin as [<-|Hin].
+    + exists 0%nat. cbn. apply Z.leb_le in E. repeat split; try lia.
+    + destruct (IH _ _ Hin) as [m [H1 [H2 [H3 H4]]]]. exists (S m). cbn [length nth]. repeat split; try lia; assumption.
+  - destruct (IH _ _ Hin) as [m [H1 [H2 [H3 H4]]]]. exists (S m). cbn [length nth]. repeat split; try lia; assumption.
+Qed.
+
+Lemma matched_complete tsb : forall tsa ib m, (m < length tsa)%nat -> (m < length ib)%nat ->
+  (0 <= nth m ib (-1)%Z)%Z ->
+  In (nth m tsa 0, nth (Z.to_nat (nth m ib (-1)%Z)) tsb 0) (matched tsa ib tsb).
+Proof.
+  induction tsa as [|a ra IH]; intros ib m H1 H2 H3; cbn [length] in H1; [lia|].
+  destruct ib as [|j rj]; cbn [length] in H2; [lia|]. cbn [matched].
+  destruct m as [|m]; cbn [nth] in *.
+  - apply Z.leb_le in H3. rewrite H3. left; reflexivity.
+  - specialize (IH rj m ltac:(lia) ltac:(lia) H3). destruct (0 <=? j)%Z; [right|]; exact IH.
+Qed.
+
+Lemma lin2_on_map d o k0 k1 x : pair_on_map d o k0 -> pair_on_map d o k1 -> ~ fst k1 == fst k0 ->
+  lin2 k0 k1 x == (1 + d) * x + o.
+Proof.
+  unfold pair_on_map, lin2. intros H0 H1 Hne. rewrite H0, H1. field. intros E. apply Hne. lra.
+Qed.
+
+Lemma interp_seg_on_map d o x : forall rest k0 k1,
+  Forall (pair_on_map d o) (k0 :: k1 :: rest) ->
+  (forall p q r1 r2, k0 :: k1 :: rest = r1 ++ p :: q :: r2 -> ~ fst q == fst p) ->
+  interp_seg k0 k1 rest x == (1 + d) * x + o.
+Proof.
+  induction rest as [|k2 r IH]; intros k0 k1 Hf Hd.
+  - cbn [interp_seg]. inversion Hf as [|? ? H0 Hf']; subst. inversion Hf' as [|? ? H1 _]; subst.
+    apply lin2_on_map; auto. apply (Hd k0 k1 [] []). reflexivity.
+  - cbn [interp_seg]. inversion Hf as [|? ? H0 Hf']; subst. inversion Hf' as [|? ? H1 _]; subst.
+    destruct (Qle_bool x (fst k1)).
+    + apply lin2_on_map; auto. apply (Hd k0 k1 [] (k2 :: r)). reflexivity.
+    + apply IH; [exact Hf'|]. intros p q r1 r2 E. apply (Hd p q (k0 :: r1) r2). rewrite E. reflexivity.
+Qed.
+
+(* _interp_fcn on pairs that all lie on b = (1+d) a + o *)
+Lemma interp_fcn_exact linear tsa ib tsb d o :
+  Forall (pair_on_map d o) (matched tsa ib tsb) ->
+  (exists p q, In p (matched tsa ib tsb) /\ In q (matched tsa ib tsb) /\ ~ fst p == fst q) ->
+  exists f s, interp_fcn linear tsa ib tsb = Some (f, s) /\ s == d /\
+    (linear = true -> forall x, apply_a2b f x == (1 + d) * x + o) /\
+    (linear = false ->
+       (forall p q r1 r2, matched tsa ib tsb = r1 ++ p :: q :: r2 -> ~ fst q == fst p) ->
+       forall x, apply_a2b f x == (1 + d) * x + o).
+Proof.
+  intros Hf Hd. unfold interp_fcn.
+  set (pr := matched tsa ib tsb) in *.
+  set (pts := map (fun p : Q * Q => (fst p, snd p - fst p)) pr).
+  assert (Hl : Forall (on_line d o) pts).
+  { unfold pts. apply Forall_forall. intros q Hq. apply in_map_iff in Hq. destruct Hq as [p [<- Hp]].
+    rewrite Forall_forall in Hf. specialize (Hf p Hp). unfold on_line, pair_on_map in *. cbn [fst snd].
+    rewrite Hf. ring. }
+  assert (Hd' : exists p q, In p pts /\ In q pts /\ ~ fst p == fst q).
+  { destruct Hd as [p [q [Hp [Hq Hne]]]].
+    exists (fst p, snd p - fst p), (fst q, snd q - fst q). unfold pts.
+    repeat split; try (apply in_map_iff; eexists; split; [reflexivity|assumption]). exact Hne. }
+  destruct (polyfit_exact_affine pts d o Hl Hd') as [s' [c' [E [Es Ec]]]].
+  rewrite E. eexists. exists s'. split; [reflexivity|]. split; [exact Es|]. split.
+  - intros ->. intros x. cbn [apply_a2b]. rewrite Es, Ec. ring.
+  - intros ->. intros Hsorted x. cbn [apply_a2b].
+    destruct pr as [|k0 [|k1 r]] eqn:Epr.
+    + destruct Hd as [p [_ [[] _]]].
+    + destruct Hd as [p [q [[<-|[]] [[<-|[]] Hne]]]]. exfalso. apply Hne. reflexivity.
+    + apply interp_seg_on_map; [exact Hf|exact Hsorted].
+Qed.
+
+Open Scope Z_scope.
+
+(* ------------------------------------------------------------------------- *)
+(* Part B — first pass (integer ticks)                                        *)
+(* ------------------------------------------------------------------------- *)
+Lemma near_In thr x l : forall j0 j d, In (j, d) (near thr x l j0) ->
+  exists i, (i < length l)%nat /\ j = j0 + Z.of_nat i /\ d = Z.abs (x - nth i l 0) /\ d < thr.
+Proof.
+  induction l as [|b r IH]; intros j0 j d Hin; cbn [near] in Hin; [destruct Hin|].
+  destruct (Z.abs (x - b) <? thr) eqn:E.
+  - destruct Hin as [Heq|Hin].
+    + inversion Heq; subst. exists 0%nat. cbn. apply Z.ltb_lt in E. repeat split; lia.
+    + destruct (IH _ _ _ Hin) as [i [Hi [Hj [Hd Hlt]]]]. exists (S i). cbn [length nth].
+      repeat split; try lia; assumption.
+  - destruct (IH _ _ _ Hin) as [i [Hi [Hj [Hd Hlt]]]]. exists (S i). cbn [length nth].
+    repeat split; try lia; assumption.
+Qed.
+
+Lemma near_complete thr x l : forall j0 i, (i < length l)%nat -> Z.abs (x - nth i l 0) < thr ->
+  In (j0 + Z.of_nat i, Z.abs (x - nth i l 0)) (near thr x l j0).
+Proof.
+  induction l as [|b r IH]; intros j0 i Hi Hlt; cbn [length] in Hi; [lia|].
+  cbn [near]. destruct i as [|i].
+  - cbn [nth] in *. apply Z.ltb_lt in Hlt. rewrite Hlt. left. f_equal. lia.
+  - cbn [nth] in *. specialize (IH (j0 + 1) i ltac:(lia) Hlt).
+    replace (j0 + 1 + Z.of_nat i) with (j0 + Z.of_nat (S i)) in IH by lia.
+    destruct (Z.abs (x - b) <? thr); [right|]; exact IH.
+Qed.
+
+(* indices in `near` are strictly increasing, all >= j0 *)
+Lemma near_lb thr x l : forall j0 p, In p (near thr x l j0) -> j0 <= fst p.
+Proof.
+  intros j0 [j d] Hin. destruct (near_In _ _ _ _ _ _ Hin) as [i [_ [-> _]]]. cbn. lia.
+Qed.
+
+Lemma near_nodup thr x l : forall j0, NoDup (map fst (near thr x l j0)).
+Proof.
+  induction l as [|b r IH]; intros j0; cbn [near]; [constructor|].
+  destruct (Z.abs (x - b) <? thr); [|apply IH].
+  cbn [map fst]. constructor; [|apply IH].
+  intros Hin. apply in_map_iff in Hin. destruct Hin as [p [Hp Hin]].
+  apply near_lb in Hin. lia.
+Qed.
+
+Lemma argmin_first_In l : forall best, argmin_first best l = best \/ In (argmin_first best l) l.
+Proof.
+  induction l as [|p r IH]; intros best; cbn [argmin_first]; [left; reflexivity|].
+  destruct (snd p <? snd best).
+  - destruct (IH p) as [->|H]; right; [left; reflexivity|right; exact H].
+  - destruct (IH best) as [->|H]; [left; reflexivity|right; right; exact H].
+Qed.
+
+(* whatever branch is taken, an assigned index is one of the candidates *)
+Lemma assign1_cases thr x tsb prev :
+  assign1 thr x tsb prev = -1 \/ In (assign1 thr x tsb prev) (map fst (near thr x tsb 0)).
+Proof.
+  unfold assign1. destruct (near thr x tsb 0) as [|p [|q rest]] eqn:E.
+  - left; reflexivity.
+  - right. left. reflexivity.
+  - set (inds := p :: q :: rest).
+    destruct (filter (fun q0 => negb (zmem (fst q0) prev)) inds) as [|c [|c2 cr]] eqn:F.
+    + left; reflexivity.
+    + right. apply in_map. assert (Hc : In c (filter (fun q0 => negb (zmem (fst q0) prev)) inds)) by (rewrite F; left; reflexivity).
+      apply filter_In in Hc. exact (proj1 Hc).
+    + right. apply in_map. destruct (argmin_first_In (q :: rest) p) as [->|H]; [left; reflexivity|right; exact H].
+Qed.
+
+Lemma assign1_near thr x tsb prev j : assign1 thr x tsb prev = j -> 0 <= j ->
+  exists i, (i < length tsb)%nat /\ j = Z.of_nat i /\ Z.abs (x - nth i tsb 0) < thr.
+Proof.
+  intros <- Hj. destruct (assign1_cases thr x tsb prev) as [E|Hin]; [lia|].
+  apply in_map_iff in Hin. destruct Hin as [[j d] [Hj' Hin]]. cbn in Hj'. subst j.
+  destruct (near_In _ _ _ _ _ _ Hin) as [i [Hi [Hj' [Hd Hlt]]]]. exists i. repeat split; [exact Hi|lia|lia].
+Qed.
+
+Lemma assign1_range thr x tsb prev : -1 <= assign1 thr x tsb prev < Z.of_nat (length tsb).
+Proof.
+  destruct (assign1_cases thr x tsb prev) as [E|Hin]; [rewrite E; lia|].
+  apply in_map_iff in Hin. destruct Hin as [[j d] [Hj' Hin]]. cbn in Hj'. rewrite <- Hj'.
+  destruct (near_In _ _ _ _ _ _ Hin) as [i [Hi [-> _]]]. lia.
+Qed.
+
+(* a unique candidate is taken whatever has been used before *)
+Lemma assign1_unique thr x tsb prev i :
+  (i < length tsb)%nat -> Z.abs (x - nth i tsb 0) < thr ->
+  (forall i', (i' < length tsb)%nat -> Z.abs (x - nth i' tsb 0) < thr -> i' = i) ->
+  assign1 thr x tsb prev = Z.of_nat i.
+Proof.
+  intros Hi Hlt Hu.
+  pose proof (near_complete thr x tsb 0 i Hi Hlt) as Hin. rewrite Z.add_0_l in Hin.
+  pose proof (near_nodup thr x tsb 0) as Hnd.
+  assert (Hall : forall p, In p (near thr x tsb 0) -> fst p = Z.of_nat i).
+  { intros [j d] Hp. destruct (near_In _ _ _ _ _ _ Hp) as [i' [Hi' [-> [-> Hlt']]]].
+    cbn. rewrite (Hu i' Hi' Hlt'). lia. }
+  unfold assign1. destruct (near thr x tsb 0) as [|p [|q rest]] eqn:E.
+  - destruct Hin.
+  - apply Hall. left; reflexivity.
+  - exfalso. cbn [map] in Hnd. inversion Hnd as [|? ? Hnot _]; subst.
+    apply Hnot. left. rewrite (Hall p), (Hall q); [reflexivity|right; left; reflexivity|left; reflexivity].
+Qed.
+
+Lemma assign1_none thr x tsb prev :
+  (forall i, (i < length tsb)%nat -> thr <= Z.abs (x - nth i tsb 0)) ->
+  assign1 thr x tsb prev = -1.
+Proof.
+  intros Hf. destruct (assign1_cases thr x tsb prev) as [E|Hin]; [exact E|].
+  apply in_map_iff in Hin. destruct Hin as [[j d] [_ Hin]].
+  destruct (near_In _ _ _ _ _ _ Hin) as [i [Hi [_ [-> Hlt]]]]. specialize (Hf i Hi). lia.
+Qed.
+
+Lemma first_pass_from_length thr delta tsa tsb : forall prev,
+  length (first_pass_from thr delta tsa tsb prev) = length tsa.
+Proof. induction tsa as [|a r IH]; intros prev; cbn; [reflexivity|]. now rewrite IH. Qed.
+
+Lemma first_pass_from_nth thr delta tsb : forall tsa prev m, (m < length tsa)%nat ->
+  exists prev', nth m (first_pass_from thr delta tsa tsb prev) (-1)
+                = assign1 thr (nth m tsa 0 - delta) tsb prev'.
+Proof.
+  induction tsa as [|a r IH]; intros prev m Hm; cbn [length] in Hm; [lia|].
+  cbn [first_pass_from]. destruct m as [|m].
+  - exists prev. reflexivity.
+  - cbn [nth]. apply IH. lia.
+Qed.
+
+Lemma first_pass_length thr delta tsa tsb : length (first_pass thr delta tsa tsb) = length tsa.
+Proof. apply first_pass_from_length. Qed.
+
+Lemma first_pass_nth thr delta tsa tsb m : (m < length tsa)%nat ->
+  exists prev', nth m (first_pass thr delta tsa tsb) (-1)
+                = assign1 thr (nth m tsa 0 - delta) tsb prev'.
+Proof. apply first_pass_from_nth. Qed.
+
+(* every pair produced by the first pass is closer than the threshold (unconditional) *)
+Lemma first_pass_within thr delta tsa tsb m j : (m < length tsa)%nat ->
+  nth m (first_pass thr delta tsa tsb) (-1) = j -> 0 <= j ->
+  exists i, (i < length tsb)%nat /\ j = Z.of_nat i /\ Z.abs (nth m tsa 0 - delta - nth i tsb 0) < thr.
+Proof.
+  intros Hm Hn Hj. destruct (first_pass_nth thr delta tsa tsb m Hm) as [prev' E].
+  rewrite E in Hn. exact (assign1_near _ _ _ _ _ Hn Hj).
+Qed.
+
+Lemma first_pass_range thr delta tsa tsb m : (m < length tsa)%nat ->
+  -1 <= nth m (first_pass thr delta tsa tsb) (-1) < Z.of_nat (length tsb).
+Proof.
+  intros Hm. destruct (first_pass_nth thr delta tsa tsb m Hm) as [prev' ->]. apply assign1_range.
+Qed.
+
+(* injectivity needs the a-side spacing: two a-events at least 2*thr apart never share a partner *)
+Lemma first_pass_injective thr delta tsa tsb :
+  (forall m1 m2, (m1 < length tsa)%nat -> (m2 < length tsa)%nat -> m1 <> m2 ->
+     2 * thr <= Z.abs (nth m1 tsa 0 - nth m2 tsa 0)) ->
+  forall m1 m2 j, (m1 < length tsa)%nat -> (m2 < length tsa)%nat -> 0 <= j ->
+    nth m1 (first_pass thr delta tsa tsb) (-1) = j ->
+    nth m2 (first_pass thr delta tsa tsb) (-1) = j -> m1 = m2.
+Proof.
+  intros Hsp m1 m2 j H1 H2 Hj E1 E2.
+  destruct (Nat.eq_dec m1 m2) as [|Hne]; [assumption|exfalso].
+  destruct (first_pass_within _ _ _ _ _ _ H1 E1 Hj) as [i1 [_ [Hi1 L1]]].
+  destruct (first_pass_within _ _ _ _ _ _ H2 E2 Hj) as [i2 [_ [Hi2 L2]]].
+  assert (i1 = i2) by lia. subst i2.
+  specialize (Hsp m1 m2 H1 H2 Hne). lia.
+Qed.
+
+(* Soundness and completeness under separation.
+   Ground truth: event k happened at tick t k (clock of series a).  la m / lb j = the
+   event seen as tsa[m] / tsb[j].  ea, eb bound the misalignment of each side
+   once the coarse offset has been removed (jitter + drift*time + error of delta);
+   distinct events are at least thr + ea + eb apart. *)
+Section Separation.
+Variables (thr delta ea eb : Z) (tsa tsb : list Z) (t : Z -> Z) (la lb : nat -> Z).
+Hypothesis Ha : forall m, (m < length tsa)%nat -> Z.abs (nth m tsa 0 - t (la m)) <= ea.
+Hypothesis Hb : forall j, (j < length tsb)%nat -> Z.abs (nth j tsb 0 + delta - t (lb j)) <= eb.
+Hypothesis Hsep : forall k k', k <> k' -> thr + ea + eb <= Z.abs (t k - t k').
+Hypothesis Hlb : forall j j', (j < length tsb)%nat -> (j' < length tsb)%nat -> lb j = lb j' -> j = j'.
+Set Default Proof Using "Ha Hb Hsep Hlb".
+
+Lemma near_is_partner m j : (m < length tsa)%nat -> (j < length tsb)%nat ->
+  Z.abs (nth m tsa 0 - delta - nth j tsb 0) < thr -> la m = lb j.
+Proof using Ha Hb Hsep.
+  intros Hm Hj Hlt. destruct (Z.eq_dec (la m) (lb j)) as [|Hne]; [assumption|exfalso].
+  specialize (Ha m Hm). specialize (Hb j Hj). specialize (Hsep _ _ Hne). lia.
+Qed.
+
+Lemma first_pass_sound m j : (m < length tsa)%nat ->
+  nth m (first_pass thr delta tsa tsb) (-1) = j -> 0 <= j ->
+  exists i, (i < length tsb)%nat /\ j = Z.of_nat i /\ la m = lb i.
+Proof using Ha Hb Hsep.
+  intros Hm E Hj. destruct (first_pass_within _ _ _ _ _ _ Hm E Hj) as [i [Hi [-> Hlt]]].
+  exists i. repeat split; [exact Hi|]. exact (near_is_partner m i Hm Hi Hlt).
+Qed.
+
+Lemma first_pass_complete m i : (m < length tsa)%nat -> (i < length tsb)%nat ->
+  la m = lb i -> ea + eb < thr ->
+  nth m (first_pass thr delta tsa tsb) (-1) = Z.of_nat i.
+Proof.
+  intros Hm Hi Hp He. destruct (first_pass_nth thr delta tsa tsb m Hm) as [prev' ->].
+  assert (Hlt : Z.abs (nth m tsa 0 - delta - nth i tsb 0) < thr).
+  { specialize (Ha m Hm). specialize (Hb i Hi). rewrite Hp in Ha. lia. }
+  apply assign1_unique; [exact Hi|exact Hlt|].
+  intros i' Hi' Hlt'. apply Hlb; [exact Hi'|exact Hi|].
+  rewrite <- (near_is_partner m i' Hm Hi' Hlt'). exact Hp.
+Qed.
+
+(* an a-event whose partner is absent from tsb stays unassigned *)
+Lemma first_pass_lone m : (m < length tsa)%nat ->
+  (forall i, (i < length tsb)%nat -> la m <> lb i) ->
+  nth m (first_pass thr delta tsa tsb) (-1) = -1.
+Proof using Ha Hb Hsep.
+  intros Hm Hno. destruct (first_pass_nth thr delta tsa tsb m Hm) as [prev' ->].
+  apply assign1_none. intros i Hi.
+  destruct (Z_lt_le_dec (Z.abs (nth m tsa 0 - delta - nth i tsb 0)) thr) as [Hlt|]; [|assumption].
+  exfalso. exact (Hno i Hi (near_is_partner m i Hm Hi Hlt)).
+Qed.
+End Separation.
+Unset Default Proof Using.
+
+(* ------------------------------------------------------------------------- *)
+(* Part C — second pass                                                       *)
+(* ------------------------------------------------------------------------- *)
+Lemma zmem_In j l : zmem j l = true <-> In j l.
+Proof.
+  induction l as [|k r IH]; cbn [zmem In]; [split; [discriminate|tauto]|].
+  rewrite orb_true_iff, IH, Z.eqb_eq. split; intros [H|H]; auto.
+Qed.
+
+Definition entry_ok (thr : Q) (al bl : list (Z * Q)) (e : Z * Z * Q) : Prop :=
+  let '(j, m, d) := e in
+  exists bv av, In (j, bv) bl /\ In (m, av) al /\ d = qdist av bv /\ Qle_bool d thr = true.
+
+Definition best_ok thr al bl (best : option (Z * Z * Q)) : Prop :=
+  match best with None => True | Some e => entry_ok thr al bl e end.
+
+Lemma better_ok thr al bl bj am best :
+  In bj bl -> In am al -> best_ok thr al bl best -> best_ok thr al bl (better thr bj am best).
+Proof.
+  intros Hb Ha Hok. unfold better. destruct bj as [j bv], am as [m av]. cbn [fst snd].
+  destruct (Qle_bool (qdist av bv) thr) eqn:E; [|exact Hok].
+  assert (Hnew : entry_ok thr al bl (j, m, qdist av bv)) by (exists bv, av; auto).
+  destruct best as [[[j0 m0] d0]|]; [|exact Hnew].
+  destruct (qltb (qdist av bv) d0); [exact Hnew|exact Hok].
+Qed.
+
+Lemma row_best_ok thr al bl bj : In bj bl -> forall al' best, incl al' al ->
+  best_ok thr al bl best -> best_ok thr al bl (row_best thr bj al' best).
+Proof.
+  intros Hb. induction al' as [|am r IH]; intros best Hinc Hok; cbn [row_best]; [exact Hok|].
+  apply IH; [intros x Hx; apply Hinc; right; exact Hx|].
+  apply better_ok; auto. apply Hinc. left; reflexivity.
+Qed.
+
+Lemma mat_best_ok thr al bl : forall bl' best, incl bl' bl ->
+  best_ok thr al bl best -> best_ok thr al bl (mat_best thr bl' al best).
+Proof.
+  induction bl' as [|bj r IH]; intros best Hinc Hok; cbn [mat_best]; [exact Hok|].
+  apply IH; [intros x Hx; apply Hinc; right; exact Hx|].
+  apply row_best_ok; auto; [apply Hinc; left; reflexivity|apply incl_refl].
+Qed.
+
+Lemma mat_best_some thr al bl e : mat_best thr bl al None = Some e -> entry_ok thr al bl e.
+Proof.
+  intros E. pose proof (mat_best_ok thr al bl bl None (incl_refl _) I) as H. rewrite E in H. exact H.
+Qed.
+
+(* None is returned only when nothing is within the threshold *)
+Lemma better_some thr bj am best : best <> None -> better thr bj am best <> None.
+Proof.
+  unfold better. destruct (Qle_bool _ thr); [|auto].
+  destruct best as [[[j0 m0] d0]|]; [|congruence]. intros _. destruct (qltb _ d0); discriminate.
+Qed.
+
+Lemma row_best_some thr bj : forall al best, best <> None -> row_best thr bj al best <> None.
+Proof.
+  induction al as [|am r IH]; intros best H; cbn [row_best]; [exact H|]. apply IH, better_some, H.
+Qed.
+
+Lemma mat_best_some_mono thr al : forall bl best, best <> None -> mat_best thr bl al best <> None.
+Proof.
+  induction bl as [|bj r IH]; intros best H; cbn [mat_best]; [exact H|]. apply IH, row_best_some, H.
+Qed.
+
+Lemma row_best_hit thr bj am : forall al best, In am al ->
+  Qle_bool (qdist (snd am) (snd bj)) thr = true -> row_best thr bj al best <> None.
+Proof.
+  induction al as [|x r IH]; intros best Hin Hle; [destruct Hin|]. cbn [row_best].
+  destruct Hin as [->|Hin]; [|apply IH; assumption].
+  apply row_best_some. unfold better. rewrite Hle.
+  destruct best as [[[j0 m0] d0]|]; [destruct (qltb _ d0)|]; discriminate.
+Qed.
+
+Lemma mat_best_hit thr al am bj : forall bl best, In bj bl -> In am al ->
+  Qle_bool (qdist (snd am) (snd bj)) thr = true -> mat_best thr bl al best <> None.
+Proof.
+  induction bl as [|x r IH]; intros best Hb Ha Hle; [destruct Hb|]. cbn [mat_best].
+  destruct Hb as [->|Hb]; [|apply IH; assumption].
+  apply mat_best_some_mono. apply (row_best_hit thr bj am); assumption.
+Qed.
+
+Lemma drop_idx_In k l p : In p (drop_idx k l) <-> In p l /\ fst p <> k.
+Proof.
+  unfold drop_idx. rewrite filter_In, negb_true_iff, Z.eqb_neq. tauto.
+Qed.
+
+Lemma filter_len_le {A} (g : A -> bool) l : (length (filter g l) <= length l)%nat.
+Proof. induction l as [|x r IH]; cbn; [lia|]. destruct (g x); cbn; lia. Qed.
+
+Lemma drop_idx_shorter k l v : In (k, v) l -> (length (drop_idx k l) < length l)%nat.
+Proof.
+  unfold drop_idx. induction l as [|p r IH]; intros Hin; [destruct Hin|]. cbn [filter length].
+  destruct Hin as [->|Hin].
+  - cbn [fst]. rewrite Z.eqb_refl. cbn [negb]. pose proof (filter_len_le (fun p : Z * Q => negb (fst p =? k)) r). lia.
+  - specialize (IH Hin). destruct (negb (fst p =? k)); cbn [length]; lia.
+Qed.
+
+Definition pair_ok (thr : Q) (al bl : list (Z * Q)) (p : Z * Z) : Prop :=
+  exists av bv, In (fst p, av) al /\ In (snd p, bv) bl /\ Qle_bool (qdist av bv) thr = true.
+
+Lemma second_loop_ok thr : forall fuel al bl p, In p (second_loop fuel thr al bl) -> pair_ok thr al bl p.
+Proof.
+  induction fuel as [|k IH]; intros al bl p Hin; cbn [second_loop] in Hin; [destruct Hin|].
+  destruct (mat_best thr bl al None) as [[[j m] d]|] eqn:E; [|destruct Hin].
+  destruct Hin as [<-|Hin].
+  - apply mat_best_some in E. destruct E as [bv [av [Hb [Ha [-> Hle]]]]]. exists av, bv. auto.
+  - destruct (IH _ _ _ Hin) as [av [bv [Ha [Hb Hle]]]]. exists av, bv.
+    apply drop_idx_In in Ha. apply drop_idx_In in Hb. tauto.
+Qed.
+
+Lemma second_loop_nodup thr : forall fuel al bl,
+  NoDup (map fst (second_loop fuel thr al bl)) /\ NoDup (map snd (second_loop fuel thr al bl)).
+Proof.
+  induction fuel as [|k IH]; intros al bl; cbn [second_loop]; [split; constructor|].
+  destruct (mat_best thr bl al None) as [[[j m] d]|] eqn:E; [|split; constructor].
+  destruct (IH (drop_idx m al) (drop_idx j bl)) as [N1 N2]. cbn [map fst snd].
+  split; constructor; auto; intros Hin; apply in_map_iff in Hin; destruct Hin as [p [Hp Hin]];
+    apply second_loop_ok in Hin; destruct Hin as [av [bv [Ha [Hb _]]]];
+    apply drop_idx_In in Ha; apply drop_idx_In in Hb; cbn [fst] in *; tauto.
+Qed.
+
+Lemma second_loop_maximal thr : forall fuel al bl, (length al <= fuel)%nat ->
+  forall m av j bv, In (m, av) al -> In (j, bv) bl -> Qle_bool (qdist av bv) thr = true ->
+  In m (map fst (second_loop fuel thr al bl)) \/ In j (map snd (second_loop fuel thr al bl)).
+Proof.
+  induction fuel as [|k IH]; intros al bl Hlen m av j bv Ha Hb Hle.
+  - destruct al; [destruct Ha|cbn in Hlen; lia].
+  - cbn [second_loop]. destruct (mat_best thr bl al None) as [[[j0 m0] d0]|] eqn:E.
+    + cbn [map fst snd]. destruct (Z.eq_dec m m0) as [->|Hm]; [left; left; reflexivity|].
+      destruct (Z.eq_dec j j0) as [->|Hj]; [right; left; reflexivity|].
+      pose proof (mat_best_some _ _ _ _ E) as [bv0 [av0 [Hb0 [Ha0 _]]]].
+      pose proof (drop_idx_shorter m0 al av0 Ha0) as Hsh.
+      assert (Ha' : In (m, av) (drop_idx m0 al)) by (apply drop_idx_In; split; auto).
+      assert (Hb' : In (j, bv) (drop_idx j0 bl)) by (apply drop_idx_In; split; auto).
+      destruct (IH (drop_idx m0 al) (drop_idx j0 bl) ltac:(lia) m av j bv Ha' Hb' Hle) as [H|H]; [left; right; exact H|right; right; exact H].
+    + exfalso. exact (mat_best_hit thr al (m, av) (j, bv) bl None Hb Ha Hle E).
+Qed.
+
+(* unassigned a-events / unused b-events *)
+Lemma amiss_In f : forall tsa ib m0 m v, In (m, v) (amiss f tsa ib m0) <->
+  exists i, m = m0 + Z.of_nat i /\ (i < length tsa)%nat /\ (i < length ib)%nat /\
+            nth i ib (-1) < 0 /\ v = apply_a2b f (nth i tsa 0%Q).
+Proof.
+  induction tsa as [|a ra IH]; intros ib m0 m v.
+  - cbn [amiss]. split; [intros []|intros [i [_ [H _]]]; cbn in H; lia].
+  - destruct ib as [|j rj]; cbn [amiss].
+    + split; [intros []|intros [i [_ [_ [H _]]]]; cbn in H; lia].
+    + assert (Hrec : In (m, v) (amiss f ra rj (m0 + 1)) <->
+                     exists i, m = m0 + Z.of_nat (S i) /\ (S i < length (a :: ra))%nat /\
+                       (S i < length (j :: rj))%nat /\ nth (S i) (j :: rj) (-1) < 0 /\
+                       v = apply_a2b f (nth (S i) (a :: ra) 0%Q)).
+      { rewrite IH. split; intros [i H]; exists i; cbn [length nth] in *;
+          (repeat split; try lia; try tauto). all: destruct H as [? [? [? [? ?]]]]; assumption. }
+      destruct (j <? 0) eqn:Ej.
+      * cbn [In]. rewrite Hrec. split.
+        -- intros [Heq|[i H]]; [|exists (S i); exact H].
+           inversion Heq; subst. exists 0%nat. cbn. apply Z.ltb_lt in Ej. repeat split; lia.
+        -- intros [[|i] H]; [left|right; exists i; exact H].
+           destruct H as [-> [_ [_ [_ ->]]]]. cbn. f_equal. lia.
+      * rewrite Hrec. split.
+        -- intros [i H]; exists (S i); exact H.
+        -- intros [[|i] H]; [|exists i; exact H].
+           destruct H as [_ [_ [_ [H _]]]]. cbn in H. apply Z.ltb_ge in Ej. lia.
+Qed.
+
+Lemma bmiss_In ib : forall tsb j0 j b, In (j, b) (bmiss tsb ib j0) <->
+  exists i, j = j0 + Z.of_nat i /\ (i < length tsb)%nat /\ b = nth i tsb 0%Q /\ ~ In j ib.
+Proof.
+  induction tsb as [|x r IH]; intros j0 j b; cbn [bmiss].
+  - split; [intros []|intros [i [_ [H _]]]; cbn in H; lia].
+  - assert (Hrec : In (j, b) (bmiss r ib (j0 + 1)) <->
+                   exists i, j = j0 + Z.of_nat (S i) /\ (S i < length (x :: r))%nat /\
+                             b = nth (S i) (x :: r) 0%Q /\ ~ In j ib).
+    { rewrite IH. split; intros [i [H1 [H2 [H3 H4]]]]; exists i; cbn [length nth] in *;
+        repeat split; try lia; assumption. }
+    destruct (zmem j0 ib) eqn:Ez.
+    + rewrite Hrec. split.
+      * intros [i H]; exists (S i); exact H.
+      * intros [[|i] H]; [|exists i; exact H]. destruct H as [-> [_ [_ H]]].
+        exfalso. apply H. apply zmem_In. rewrite Z.add_0_r. exact Ez.
+    + cbn [In]. rewrite Hrec. split.
+      * intros [Heq|[i H]]; [|exists (S i); exact H]. inversion Heq; subst.
+        exists 0%nat. cbn. repeat split; try lia. intros Hin. apply zmem_In in Hin. congruence.
+      * intros [[|i] H]; [left|right; exists i; exact H].
+        destruct H as [-> [_ [-> _]]]. cbn. f_equal. lia.
+Qed.
+
+Lemma lookup_In m ps j : lookup m ps = Some j -> In (m, j) ps.
+Proof.
+  induction ps as [|[a b] r IH]; cbn [lookup]; [discriminate|].
+  destruct (a =? m) eqn:E; [|intros H; right; auto].
+  intros H. inversion H; subst. apply Z.eqb_eq in E. subst. left; reflexivity.
+Qed.
+
+Lemma lookup_none m ps : ~ In m (map fst ps) -> lookup m ps = None.
+Proof.
+  induction ps as [|[a b] r IH]; cbn [lookup map fst In]; [reflexivity|]. intros H.
+  destruct (a =? m) eqn:E; [apply Z.eqb_eq in E; tauto|]. apply IH. tauto.
+Qed.
+
+Lemma lookup_nodup m j ps : NoDup (map fst ps) -> In (m, j) ps -> lookup m ps = Some j.
+Proof.
+  induction ps as [|[a b] r IH]; intros Hnd Hin; [destruct Hin|]. cbn [lookup].
+  cbn [map fst] in Hnd. inversion Hnd as [|? ? Hnot Hnd']; subst.
+  destruct Hin as [Heq|Hin].
+  - inversion Heq; subst. rewrite Z.eqb_refl. reflexivity.
+  - destruct (a =? m) eqn:E; [|auto]. apply Z.eqb_eq in E. subst. exfalso. apply Hnot.
+    apply in_map_iff. exists (m, j). auto.
+Qed.
+
+Lemma update_ib_length ps : forall ib m0, length (update_ib ib ps m0) = length ib.
+Proof. induction ib as [|j r IH]; intros m0; cbn; [reflexivity|]. now rewrite IH. Qed.
+
+Lemma update_ib_nth ps : forall ib m0 i, (i < length ib)%nat ->
+  nth i (update_ib ib ps m0) (-1) =
+  match lookup (m0 + Z.of_nat i) ps with Some j' => j' | None => nth i ib (-1) end.
+Proof.
+  induction ib as [|j r IH]; intros m0 i Hi; cbn [length] in Hi; [lia|]. cbn [update_ib].
+  destruct i as [|i]; cbn [nth].
+  - rewrite Z.add_0_r. reflexivity.
+  - rewrite IH by lia. replace (m0 + 1 + Z.of_nat i) with (m0 + Z.of_nat (S i)) by lia. reflexivity.
+Qed.
+
+Section SecondPass.
+Variables (thr : Q) (f : a2b) (tsa tsb : list Q) (ib : list Z).
+Hypothesis Hlen : length ib = length tsa.
+Set Default Proof Using "Hlen".
+
+Definition sp_pairs := second_loop (length (amiss f tsa ib 0)) thr (amiss f tsa ib 0) (bmiss tsb ib 0).
+Definition ib' := second_pass thr f tsa tsb ib.
+
+Lemma sp_pairs_spec m j : In (m, j) sp_pairs ->
+  exists i k, m = Z.of_nat i /\ (i < length ib)%nat /\ nth i ib (-1) < 0 /\
+              j = Z.of_nat k /\ (k < length tsb)%nat /\ ~ In j ib /\
+              Qle_bool (qdist (apply_a2b f (nth i tsa 0%Q)) (nth k tsb 0%Q)) thr = true.
+Proof.
+  intros Hin. apply second_loop_ok in Hin. destruct Hin as [av [bv [Ha [Hb Hle]]]]. cbn [fst snd] in *.
+  apply amiss_In in Ha. destruct Ha as [i [Hm [Hi1 [Hi2 [Hneg ->]]]]].
+  apply bmiss_In in Hb. destruct Hb as [k [Hj [Hk [-> Hnot]]]].
+  exists i, k. rewrite Z.add_0_l in *. repeat split; auto.
+Qed.
+
+(* (a) events paired by the first pass keep their partner *)
+Lemma second_pass_keeps i : (i < length ib)%nat -> 0 <= nth i ib (-1) ->
+  nth i ib' (-1) = nth i ib (-1).
+Proof.
+  intros Hi Hnn. unfold ib', second_pass. rewrite update_ib_nth by exact Hi. rewrite Z.add_0_l.
+  fold sp_pairs. destruct (lookup (Z.of_nat i) sp_pairs) as [j|] eqn:E; [|reflexivity].
+  apply lookup_In, sp_pairs_spec in E. destruct E as [i' [k [Hm [_ [Hneg _]]]]].
+  apply Nat2Z.inj in Hm. subst i'. lia.
+Qed.
+
+(* (b) a new pair joins an unassigned a-event with an unused b-event whose distance to the
+   fitted map is at most thr; otherwise the entry is unchanged *)
+Lemma second_pass_new i : (i < length ib)%nat -> nth i ib (-1) < 0 ->
+  nth i ib' (-1) = nth i ib (-1) \/
+  exists k, nth i ib' (-1) = Z.of_nat k /\ (k < length tsb)%nat /\ ~ In (Z.of_nat k) ib /\
+            Qle_bool (qdist (apply_a2b f (nth i tsa 0%Q)) (nth k tsb 0%Q)) thr = true.
+Proof.
+  intros Hi Hneg. unfold ib', second_pass. rewrite update_ib_nth by exact Hi. rewrite Z.add_0_l.
+  fold sp_pairs. destruct (lookup (Z.of_nat i) sp_pairs) as [j|] eqn:E; [right|left; reflexivity].
+  apply lookup_In, sp_pairs_spec in E. destruct E as [i' [k [Hm [_ [_ [-> [Hk [Hnot Hle]]]]]]]].
+  apply Nat2Z.inj in Hm. subst i'. exists k. auto.
+Qed.
+
+(* (c) no b-event is given to two different a-events by the second pass, nor to one that the
+   first pass had already used *)
+Lemma second_pass_injective i1 i2 j : (i1 < length ib)%nat -> (i2 < length ib)%nat ->
+  nth i1 ib (-1) < 0 -> 0 <= j -> nth i1 ib' (-1) = j -> nth i2 ib' (-1) = j ->
+  i1 = i2.
+Proof.
+  intros H1 H2 Hneg Hj E1 E2.
+  unfold ib', second_pass in E1, E2. rewrite update_ib_nth in E1, E2 by assumption.
+  rewrite Z.add_0_l in E1, E2. fold sp_pairs in E1, E2.
+  destruct (lookup (Z.of_nat i1) sp_pairs) as [j1|] eqn:L1; [|lia]. subst j1.
+  apply lookup_In in L1.
+  destruct (lookup (Z.of_nat i2) sp_pairs) as [j2|] eqn:L2.
+  - subst j2. apply lookup_In in L2.
+    pose proof (proj2 (second_loop_nodup thr (length (amiss f tsa ib 0)) (amiss f tsa ib 0) (bmiss tsb ib 0))) as Nd.
+    fold sp_pairs in Nd.
+    assert (Hinj : forall ps : list (Z * Z), NoDup (map snd ps) -> forall a b c, In (a, c) ps -> In (b, c) ps -> a = b).
+    { induction ps as [|[x y] r IH]; intros N a b c Ha Hb; [destruct Ha|].
+      cbn [map snd] in N. inversion N as [|? ? Hnot N']; subst.
+      destruct Ha as [Ha|Ha]; destruct Hb as [Hb|Hb].
+      - congruence.
+      - inversion Ha; subst. exfalso. apply Hnot. apply in_map_iff. exists (b, c). auto.
+      - inversion Hb; subst. exfalso. apply Hnot. apply in_map_iff. exists (a, c). auto.
+      - eauto. }
+    apply Nat2Z.inj. exact (Hinj _ Nd _ _ _ L1 L2).
+  - exfalso. apply sp_pairs_spec in L1. destruct L1 as [_ [k [_ [_ [_ [_ [_ [Hnot _]]]]]]]].
+    apply Hnot. rewrite <- E2. apply nth_In. exact H2.
+Qed.
+
+(* (d) when the loop stops, no unassigned a-event is within thr of an unused b-event *)
+Lemma second_pass_maximal i k : (i < length ib)%nat -> (k < length tsb)%nat ->
+  nth i ib' (-1) < 0 -> ~ In (Z.of_nat k) ib' ->
+  Qle_bool (qdist (apply_a2b f (nth i tsa 0%Q)) (nth k tsb 0%Q)) thr = false.
+Proof.
+  intros Hi Hk Hneg Hunused.
+  destruct (Qle_bool (qdist (apply_a2b f (nth i tsa 0%Q)) (nth k tsb 0%Q)) thr) eqn:Hle; [exfalso|reflexivity].
+  pose proof (second_loop_nodup thr (length (amiss f tsa ib 0)) (amiss f tsa ib 0) (bmiss tsb ib 0)) as [Nd1 _].
+  fold sp_pairs in Nd1.
+  assert (Hold : nth i ib (-1) < 0).
+  { destruct (Z_lt_le_dec (nth i ib (-1)) 0) as [|Hnn]; [assumption|].
+    rewrite (second_pass_keeps i Hi Hnn) in Hneg. lia. }
+  assert (Hkold : ~ In (Z.of_nat k) ib).
+  { intros Hin. apply Hunused. apply In_nth with (d := -1) in Hin. destruct Hin as [i0 [Hi0 E0]].
+    rewrite <- E0. rewrite <- (second_pass_keeps i0 Hi0) by lia.
+    apply nth_In. unfold ib', second_pass. rewrite update_ib_length. exact Hi0. }
+  assert (Ha : In (Z.of_nat i, apply_a2b f (nth i tsa 0%Q)) (amiss f tsa ib 0)).
+  { apply amiss_In. exists i. repeat split; auto; lia. }
+  assert (Hb : In (Z.of_nat k, nth k tsb 0%Q) (bmiss tsb ib 0)).
+  { apply bmiss_In. exists k. repeat split; auto. }
+  destruct (second_loop_maximal thr _ _ _ (le_n _) _ _ _ _ Ha Hb Hle) as [H|H]; fold sp_pairs in H.
+  - apply in_map_iff in H. destruct H as [[m j] [Hm Hin]]. cbn in Hm. subst m.
+    pose proof (lookup_nodup _ _ _ Nd1 Hin) as L.
+    unfold ib', second_pass in Hneg. rewrite update_ib_nth in Hneg by exact Hi.
+    rewrite Z.add_0_l in Hneg. fold sp_pairs in Hneg. rewrite L in Hneg.
+    apply sp_pairs_spec in Hin. destruct Hin as [_ [k' [_ [_ [_ [-> _]]]]]]. lia.
+  - apply in_map_iff in H. destruct H as [[m j] [Hj Hin]]. cbn in Hj. subst j.
+    pose proof (lookup_nodup _ _ _ Nd1 Hin) as L.
+    apply sp_pairs_spec in Hin. destruct Hin as [i' [_ [-> [Hi' _]]]].
+    apply Hunused. assert (E : nth i' ib' (-1) = Z.of_nat k).
+    { unfold ib', second_pass. rewrite update_ib_nth by exact Hi'. rewrite Z.add_0_l. fold sp_pairs. now rewrite L. }
+    rewrite <- E. apply nth_In. unfold ib', second_pass. rewrite update_ib_length. exact Hi'.
+Qed.
+
+(* with ground-truth: P i k = "tsa[i] and tsb[k] are the same event" *)
+Lemma second_pass_sound (P : nat -> nat -> Prop) :
+  (forall i k, (i < length ib)%nat -> (k < length tsb)%nat ->
+     Qle_bool (qdist (apply_a2b f (nth i tsa 0%Q)) (nth k tsb 0%Q)) thr = true -> P i k) ->
+  forall i k, (i < length ib)%nat -> nth i ib (-1) < 0 -> nth i ib' (-1) = Z.of_nat k -> P i k.
+Proof.
+  intros HP i k Hi Hneg E. destruct (second_pass_new i Hi Hneg) as [U|[k' [E' [Hk' [_ Hle]]]]]; [lia|].
+  assert (k' = k) by lia. subst k'. apply HP; assumption.
+Qed.
+
+Lemma second_pass_complete (P : nat -> nat -> Prop) :
+  (forall i k, (i < length ib)%nat -> (k < length tsb)%nat -> P i k ->
+     Qle_bool (qdist (apply_a2b f (nth i tsa 0%Q)) (nth k tsb 0%Q)) thr = true) ->
+  forall i k, (i < length ib)%nat -> (k < length tsb)%nat -> P i k ->
+    0 <= nth i ib' (-1) \/ In (Z.of_nat k) ib'.
+Proof.
+  intros HP i k Hi Hk Hp.
+  destruct (Z_lt_le_dec (nth i ib' (-1)) 0) as [Hneg|]; [|left; assumption].
+  destruct (In_dec Z.eq_dec (Z.of_nat k) ib') as [|Hnot]; [right; assumption|exfalso].
+  pose proof (second_pass_maximal i k Hi Hk Hneg Hnot) as Hf. rewrite (HP i k Hi Hk Hp) in Hf. discriminate.
+Qed.
+End SecondPass.
+Unset Default Proof Using.
+
+(* ------------------------------------------------------------------------- *)
+(* Part E — how `sync` is assembled from the pieces                          *)
+(* ------------------------------------------------------------------------- *)
+Lemma sync_decomposes linear den tbin delta tsa tsb r :
+  sync linear den tbin delta tsa tsb = Some r ->
+  let qa := map (tq den) tsa in
+  let qb := map (tq den) tsb in
+  sr_ib1 r = first_pass tbin delta tsa tsb /\
+  (exists f1 s1, interp_fcn linear qa (sr_ib1 r) qb = Some (f1, s1) /\
+                 sr_ib r = second_pass (tq den tbin) f1 qa qb (sr_ib1 r)) /\
+  interp_fcn linear qa (sr_ib r) qb = Some (sr_fcn r, sr_slope r).
+Proof.
+  unfold sync. intros H.
+  destruct (interp_fcn linear (map (tq den) tsa) (first_pass tbin delta tsa tsb) (map (tq den) tsb))
+    as [[f1 s1]|] eqn:E1; [|discriminate].
+  destruct (interp_fcn linear (map (tq den) tsa)
+              (second_pass (tq den tbin) f1 (map (tq den) tsa) (map (tq den) tsb)
+                 (first_pass tbin delta tsa tsb)) (map (tq den) tsb)) as [[f2 s2]|] eqn:E2; [|discriminate].
+  inversion H; subst. cbn [sr_ib1 sr_ib sr_fcn sr_slope].
+  split; [reflexivity|]. split; [|exact E2]. exists f1, s1. split; [exact E1|reflexivity].
+Qed.
